@@ -179,6 +179,9 @@ class Gen:
                 self.ops.append('flush')
                 self.exported += self.pending
                 self.pending = []
+                if rng.random() < 0.2:
+                    # attach one more processor (a batch one only where the program already reckons with deferred export)
+                    self.ops.append('addproc ' + (rng.choice('sb') if 'b' in self.procs else 's'))
             elif r < 0.92:
                 # caller memory op: safe = only on cells nobody will read any more
                 if self.mode == 'safe' or hazard_done or not self.pending:
@@ -204,6 +207,8 @@ def corpus():
     sp = '000102030405060708090a0b0c0d0e0f/0102030405060708/01'
     out = [
         C('log sb 7265 6c6962/31/- ; emit 0 e new sev:9 body#1/s:68656c6c6f', 'smoke'),
+        # a processor attached later: the record already in hand does not reach it, records created afterwards do
+        C('log s 7265 6c6962/31/- ; create 0 e 1 ; set 1 sev:9 ; addproc s ; emit 0 e 1 ; emit 0 e new sev:5 ; addproc b ; emit 1 e new sev:17 ; flush', 'addproc'),
         # D23 (fixed): EventId without a name
         C('log s 7265 6c6962/31/- ; emit 0 e new eid:5', 'D23-eventid-null-name'),
         C('log sb 7265 6c6962/31/- ; create 0 e 1 ; set 1 eid:-7 ; emit 0 e 1 sev:1 ; emit 1 e new eid:9:6e eid:10', 'D23-eventid-null-name'),
@@ -377,6 +382,10 @@ def new_record(active):
     return {'sev': 0, 'body': 's:-', 'body_cell': None, 'attrs': {}, 'ts': 0, 'eid': 0, 'ename': b'', 'tid': t, 'sid': s, 'fl': f}
 
 
+class Sim(tuple):
+    """simulate()'s result; `.late` = [(op index, kind)] of the processors attached later with `addproc`"""
+
+
 def simulate(line):
     """the SPEC: which records every processor must export (values as given at emit time), plus the timeline needed to classify
     a deviation (which caller cells a record points into, when they were touched, when each record was exported)"""
@@ -421,6 +430,7 @@ def simulate(line):
             ops.append(('emit', p_small(o[1], 3), o[2] == 'e', tgt, args))
         elif k in ('scribble', 'free') and len(o) == 2: ops.append((k, p_small(o[1], 100000)))
         elif k == 'flush' and len(o) == 1: ops.append(('flush',))
+        elif k == 'addproc' and len(o) == 2 and o[1] in ('s', 'b'): ops.append(('addproc', o[1]))
         else:
             raise Bad('op')
         if ops[-1][0] in ('set', 'emit'):
@@ -434,12 +444,18 @@ def simulate(line):
     emitted = []      # (op index, record)
     touched = []      # (op index, kind, cell)
     flushes = []
+    late = []         # (op index, kind) of processors attached with `addproc`
     for i, o in enumerate(ops):
+        if o[0] == 'addproc':
+            late.append((i, o[1]))
+            continue
         if o[0] == 'push': stacks[o[1]].append(o[2])
         elif o[0] == 'pop':
             if stacks[o[1]]: stacks[o[1]].pop()
         elif o[0] == 'create':
             hand[o[3]] = new_record(stacks[o[1]][-1] if stacks[o[1]] else None) if o[2] else 'noop'
+            if isinstance(hand[o[3]], dict):
+                hand[o[3]]['_born'] = i
         elif o[0] == 'set':
             r = hand.get(o[1])
             if isinstance(r, dict):
@@ -454,13 +470,16 @@ def simulate(line):
                 r = hand.pop(tgt, None)                    # emitted records are gone
             if not isinstance(r, dict):
                 continue                                   # nothing in hand / disabled logger: nothing is emitted
+            r.setdefault('_born', i)
             for a in args:
                 apply_arg(r, a)
             emitted.append((i, r))
         elif o[0] in ('scribble', 'free'): touched.append((i, o[0], o[1]))
         elif o[0] == 'flush': flushes.append(i)
     flushes.append(len(ops))
-    return c[0], hx(res), '/'.join(hx(x) for x in scope), emitted, touched, flushes
+    sim = Sim((c[0], hx(res), '/'.join(hx(x) for x in scope), emitted, touched, flushes))
+    sim.late = late
+    return sim
 
 
 REC_RE = re.compile(r'\{sev=(\S+) body=(\S+) attrs=(\S+) ts=(\S+) eid=(\S+) ename=(\S+) tid=(\S+) sid=(\S+) fl=(\S+) res=(\S+) scope=(\S+)\}')
@@ -480,7 +499,7 @@ def want_fields(r, res, scope):
 def hazard(sim, kinds=('scribble', 'free')):
     """records on a batch processor whose body/attribute cells the caller touches between Emit and the export"""
     procs, res, scope, emitted, touched, flushes = sim
-    if 'b' not in procs:
+    if 'b' not in procs and not any(k == 'b' for _, k in getattr(sim, 'late', [])):
         return []
     out = []
     for (ei, r) in emitted:
@@ -490,6 +509,18 @@ def hazard(sim, kinds=('scribble', 'free')):
             if kind in kinds and cell in cells and ei < ti < exp_at:
                 out.append((ei, cell, kind))
     return out
+
+
+def model_line(case, out):
+    """the model has the configured processors only; what a processor attached later must receive is the oracle's business"""
+    return re.sub(r' ; addproc [sb](?= ;|$)', '', case.line)
+
+
+def agree(case, out, mout):
+    n = len(re.findall(r' ; addproc [sb](?= ;|$)', case.line))
+    if n and not out.startswith(('CRASH', 'bad-op')):
+        out = ' | '.join(out.split(' | ')[:-n])
+    return out == mout
 
 
 def oracle(case, out):
@@ -505,12 +536,17 @@ def oracle(case, out):
     if out == 'bad-op':
         return ('wellformed-case-accepted', out)
     parts = out.split(' | ')
-    if len(parts) != len(procs):
-        return ('reaches-every-processor-exactly-once', f'{len(parts)} processors reported, {len(procs)} configured')
+    late = sim.late
+    all_emitted = emitted
+    kinds = procs + ''.join(k for _, k in late)
+    if len(parts) != len(kinds):
+        return ('reaches-every-processor-exactly-once', f'{len(parts)} processors reported, {len(procs)} configured + {len(late)} attached later')
     for i, seg in enumerate(parts):
         m = re.fullmatch(r'p(\d+):([sb]):n=(\d+):x=\[(.*)\]', seg)
-        if not m or int(m.group(1)) != i or m.group(2) != procs[i]:
+        if not m or int(m.group(1)) != i or m.group(2) != kinds[i]:
             return ('reaches-every-processor-exactly-once', f'processor {i}: {seg[:120]}')
+        # a processor attached later receives exactly the records created after it was attached
+        emitted = all_emitted if i < len(procs) else [(ei, r) for (ei, r) in all_emitted if r['_born'] > late[i - len(procs)][0]]
         got = REC_RE.findall(m.group(4))
         if int(m.group(3)) != len(emitted) or len(got) != len(emitted):
             what = 'an ignored emit (null / already emitted record, disabled logger) reached the processor' if len(got) > len(emitted) else 'a record was lost'
@@ -524,7 +560,7 @@ def oracle(case, out):
             for f in FIELDS:
                 gv = strip_index('=' + gd[f])[1:] if f == 'body' else (strip_index(gd[f]) if f == 'attrs' else gd[f])
                 if gv != want[f]:
-                    return (CLAUSE[f], f'processor {i} ({procs[i]}) record {j} (op {ei}) {f}: got {gv[:200]} want {want[f][:200]}')
+                    return (CLAUSE[f], f'processor {i} ({kinds[i]}) record {j} (op {ei}) {f}: got {gv[:200]} want {want[f][:200]}')
     return None
 
 
